@@ -46,6 +46,7 @@ pub fn c07(a: &Args) {
     }
     let mut r2 = rng.fork();
     let mut chi_models: Vec<(GenFile, TT)> = Vec::new();
+    let mut chi_nary = 0usize;
     for_each_model(&cfg, &mut rng, |file, tt| {
         let Ok(mut d) = load(file) else { out.fail("load-panic", &file.text(), "load", "panic", "model"); return };
         let export = export_nodes(&d);
@@ -99,7 +100,13 @@ pub fn c07(a: &Args) {
             match res { Ok(Some(s)) => { if s.len() != k || s.iter().any(|c| !valid_sample(tt, &[], c)) { out.fail("urs-large", &file.text(), "urs n 10000", &s.len().to_string(), "10000 valid samples"); } } _ => out.fail("urs-large", &file.text(), "urs n 10000", "none/panic", "10000 samples") }
         }
         let c = tt.count();
-        if c >= 3 && c <= 256 && chi_models.len() < if a.thorough() { 40 } else { 10 } && r2.chance(0.3) { chi_models.push((file.clone(), tt.clone())); }
+        // uniformity candidates: half of the slots are reserved for models with an or-node of >= 3 children
+        if c >= 3 && c <= 256 {
+            let cap = if a.thorough() { 40 } else { 12 };
+            let nary = d.nodes.iter().any(|nd| matches!(&nd.ntype, ddnnife::NodeType::Or { children } if children.len() >= 3));
+            if nary && chi_nary < cap / 2 { chi_nary += 1; chi_models.push((file.clone(), tt.clone())); }
+            else if !nary && chi_models.len() - chi_nary < cap / 2 && r2.chance(0.3) { chi_models.push((file.clone(), tt.clone())); }
+        }
     });
     ddnnife::verif_hooks::set_data_callback(None);
     // uniformity: chi-square per (model, A), >= 40 000 draws pooled over seeds
@@ -107,15 +114,21 @@ pub fn c07(a: &Args) {
         let mut d = load(&file).unwrap();
         let live_or3 = d.nodes.iter().any(|nd| matches!(&nd.ntype, ddnnife::NodeType::Or { children } if children.len() >= 3));
         let mut asets: Vec<Vec<i32>> = vec![vec![]];
-        let v = 1 + r2.below(file.n as usize) as i32;
-        asets.push(vec![if r2.chance(0.5) { v } else { -v }]);
+        // single literals that remove some but not all models (they kill children of or-nodes); up to 4 of them
+        let mut lits: Vec<i32> = (1..=file.n as i32).flat_map(|v| [v, -v]).filter(|&l| { let k = tt.count_with(&[l]); k >= 2 && k < tt.count() }).collect();
+        r2.shuffle(&mut lits);
+        for l in lits.into_iter().take(if live_or3 { 4 } else { 1 }) { asets.push(vec![l]); }
         for al in asets {
             let models = tt.models_with(&al);
             if models.len() < 2 { continue; }
             let mut hist = vec![0u64; tt.bits.len()];
             let per_seed = 800; let seeds = 52;
             for s in 0..seeds {
-                if let Some(samples) = d.uniform_random_sampling(&al, per_seed, 1000 + s) { for c in samples { if let Some(k) = tt.index_of(&c) { hist[k] += 1; } } }
+                match guarded(|| d.uniform_random_sampling(&al, per_seed, 1000 + s)) {
+                    Ok(Some(samples)) => { for c in samples { if let Some(k) = tt.index_of(&c) { hist[k] += 1; } } }
+                    Ok(None) => {}
+                    Err(e) => { out.fail("urs-panic", &file.text(), &format!("urs a {:?} n {} s {}", al, per_seed, 1000 + s), &format!("panic: {e}"), "samples"); break; }
+                }
             }
             let total = (per_seed * seeds as usize) as f64;
             let exp = total / models.len() as f64;
